@@ -1238,6 +1238,10 @@ func (e *Exec) importProp(diffLine string) string {
 		return "C01"
 	case strings.Contains(diffLine, " did/") && strings.Contains(diffLine, "tomb") && e.Prop == "C05":
 		return "C05"
+	case strings.Contains(diffLine, "aol/writer/") && e.Prop == "C02":
+		return "C02" // the writer list changed without any transaction of the owner
+	case strings.Contains(diffLine, "pnft/token/") && strings.Contains(diffLine, "differs") && e.Prop == "C06":
+		return "C06" // a token changed (owner) without any transfer having been signed
 	}
 	return "C08"
 }
